@@ -36,6 +36,7 @@ class C08Run(object):
         self.trace = []
         self.exit_code = 'none'
         self.arbiters = []
+        self.arbiter_times = []
         self.trigger_t = None
         self.deadline_hit = False
         self.inflight = False
@@ -101,6 +102,7 @@ class C08Run(object):
                 a = circus.arbiter.Arbiter.load_from_config.__func__(
                     cls, config_file, loop=loop)
                 run.arbiters.append(a)
+                run.arbiter_times.append(w.sim.now)
                 w.adopt(a)
                 return a
         circus.circusd.Arbiter = CapturingArbiter
@@ -367,7 +369,10 @@ class C08Run(object):
             if r.cmd == 'restart' and not (r.props or {}).get('name') and \
                     r.accepted and not r.cast and r.disp_t is not None and \
                     r.disp_t < self.trigger_t - 1e-9 and \
-                    (r.done_t is None or r.done_t < self.trigger_t):
+                    any(r.disp_t < ta < self.trigger_t
+                        for ta in self.arbiter_times):
+                # (the restart went through: the next arbiter was built
+                # before the shutdown began)
                 self.count(self.probes, 'daemon_restart_reply_checked')
                 if len(r.replies) != 1:
                     self.viol('daemon_restart_not_answered',
